@@ -248,6 +248,74 @@ pub fn run(cfg: &Cfg) {
         }
     }
 
+    // 3b. every vector over {-inf, -1, 0, 1, +inf} up to length 5 (ties between equal infinities,
+    //     steps across infinities) -- f64, f32 and exact runs against the oracle and the model
+    {
+        let alpha = [f64::NEG_INFINITY, -1.0, 0.0, 1.0, f64::INFINITY];
+        let maxl = if thorough { 6 } else { 5 };
+        for len in 2..=maxl {
+            let total = 5u64.pow(len as u32);
+            for code in 0..total {
+                let mut c = code;
+                let mut v = vec![];
+                for _ in 0..len { v.push(alpha[(c % 5) as usize]); c /= 5; }
+                let desc = obj(vec![("vector", fjson(&v)), ("gen", s("inf-alphabet"))]);
+                let got = run_all_views(&v, &mut rep, &desc);
+                rep.eval(Some(&format!("{:?}", v)));
+                rep.count(&format!("inf_alphabet_len{}", len));
+                if got != oracle(&v) {
+                    rep.fail(&format!("classified {:?}, expected {:?}", got, oracle(&v)), desc.clone());
+                }
+                if len <= 4 || rng.chance(1, 4) {
+                    rep.coq_case(kind, format!("({}, {})", coq_list(&v), got.coq()), desc.clone());
+                }
+            }
+        }
+    }
+    // 3c. integer vectors over the extremes of i32 / i64 (differences overflow; comparisons do not)
+    {
+        let kz = rep.kind("c12_ok_z", "(list Z * mono)");
+        let maxl = if thorough { 5 } else { 4 };
+        for (bits, lo, hi) in [(32, i32::MIN as i64, i32::MAX as i64), (64, i64::MIN, i64::MAX)] {
+            let alpha = [lo, lo + 1, -1, 0, 1, hi - 1, hi];
+            for len in 2..=maxl {
+                let total = 7u64.pow(len as u32);
+                for code in 0..total {
+                    let mut c = code;
+                    let mut v = vec![];
+                    for _ in 0..len { v.push(alpha[(c % 7) as usize]); c /= 7; }
+                    let desc = obj(vec![("vector", J::A(v.iter().map(|&x| J::I(x)).collect())), ("gen", s(format!("i{}-extremes", bits)))]);
+                    let r = std::panic::catch_unwind(|| {
+                        if bits == 32 { cls_of(Array1::from(v.iter().map(|&x| x as i32).collect::<Vec<_>>()).monotonic_prop()) }
+                        else { cls_of(Array1::from(v.clone()).monotonic_prop()) }
+                    });
+                    rep.eval(Some(&format!("{}:{:?}", bits, v)));
+                    rep.count(&format!("int_extremes_i{}", bits));
+                    let vf: Vec<f64> = v.iter().map(|&x| x as f64).collect();
+                    // the oracle compares exactly (i64 order), not through f64
+                    let want = {
+                        let p: Vec<(i64, i64)> = v.windows(2).map(|w| (w[0], w[1])).collect();
+                        if p.iter().all(|&(a, b)| a < b) { Cls::Rising(true) }
+                        else if p.iter().all(|&(a, b)| a <= b) && p.iter().any(|&(a, b)| a < b) && p.iter().any(|&(a, b)| a == b) { Cls::Rising(false) }
+                        else if p.iter().all(|&(a, b)| a > b) { Cls::Falling(true) }
+                        else if p.iter().all(|&(a, b)| a >= b) && p.iter().any(|&(a, b)| a > b) && p.iter().any(|&(a, b)| a == b) { Cls::Falling(false) }
+                        else { Cls::Not }
+                    };
+                    let _ = vf;
+                    match r {
+                        Ok(got) => {
+                            if got != want { rep.fail(&format!("i{}: classified {:?}, expected {:?}", bits, got, want), desc.clone()); }
+                            if len <= 3 || rng.chance(1, 8) {
+                                rep.coq_case(kz, format!("([{}], {})", v.iter().map(|x| format!("({})", x)).collect::<Vec<_>>().join("; "), got.coq()), desc.clone());
+                            }
+                        }
+                        Err(_) => rep.fail(&format!("i{}: monotonic_prop panicked", bits), desc.clone()),
+                    }
+                }
+            }
+        }
+    }
+
     // 4. random long vectors (mostly monotone with a few disturbances), incl. +-inf
     let nrand = if thorough { 4000 } else { 400 };
     for i in 0..nrand {
